@@ -1,5 +1,6 @@
 CONSTANTS
   NSlots = 12
+  Glob = "own"
   Abs = FALSE
   Lean = FALSE
   Vocab = "exec"
